@@ -535,6 +535,8 @@ pub struct Asm<'a> {
     /// label values assumed while the layout is computed (fixed-point iteration / certificate); they are checked
     /// against the addresses the layout really yields before anything is concluded from them
     label_guess: Option<HashMap<usize, Z>>,
+    /// address of the position at which each constant is declared (`$` inside its expression), known after layout
+    const_here: HashMap<usize, Z>,
 }
 
 fn collect_vars(e: &E, out: &mut Vec<String>) {
@@ -635,8 +637,9 @@ impl<'a> Asm<'a> {
                 }
                 self.const_busy.push(si);
                 let ctx = self.syms[si].ctx.clone();
-                // `$` inside a constant: address of the constant's position — not modelled
-                let r = self.eval_in(&e, &ctx, None, &Env::new());
+                // `$` inside a constant: the address of the position at which the constant is declared
+                let here: Option<R<Z>> = if self.addresses_known { self.const_here.get(&si).map(|z| Ok(z.clone())) } else { None };
+                let r = self.eval_in(&e, &ctx, here.as_ref(), &Env::new());
                 self.const_busy.pop();
                 let v = r?;
                 if self.addresses_known {
@@ -1121,7 +1124,7 @@ fn assemble_inner2(prog: &Prog, claimed: Option<&[usize]>, guess: Option<(&HashM
             }
         }
     }
-    let mut a = Asm { prog, defs, syms: vec![], by_path: HashMap::new(), ctx_at: vec![], label_val: HashMap::new(), const_val: HashMap::new(), const_busy: vec![], addresses_known: false, label_guess: None };
+    let mut a = Asm { prog, defs, syms: vec![], by_path: HashMap::new(), ctx_at: vec![], label_val: HashMap::new(), const_val: HashMap::new(), const_busy: vec![], addresses_known: false, label_guess: None, const_here: HashMap::new() };
 
     // declarations and scopes
     let mut ctx: Vec<String> = vec![];
@@ -1406,6 +1409,15 @@ fn assemble_inner2(prog: &Prog, claimed: Option<&[usize]>, guess: Option<(&HashM
         for (si, z) in &a.label_val {
             if g.get(si) != Some(z) {
                 return err("a claimed label value is not the address at which the following item lies");
+            }
+        }
+    }
+    for (si, sy) in a.syms.iter().enumerate() {
+        if let SymKind::Const(_) = sy.kind {
+            if let Some((b, pos)) = item_pos.get(&sy.item) {
+                if pos % banks[*b].bits == 0 {
+                    a.const_here.insert(si, &banks[*b].addr + pos / banks[*b].bits);
+                }
             }
         }
     }
